@@ -47,6 +47,79 @@ func main() {
 			e.Strs("storeDocumentsLoopConds", conds, "loop conditions of SeqDBClient.StoreDocuments")
 			e.Strs("storeDocumentsGiveUpConds", rets, "conditions under which StoreDocuments returns its retry error")
 		}
+		// StoreDocuments: the write status handed to storeDocs is a local initialised once from newBulkWriteStatus(...)
+		if fd := f.Func("SeqDBClient", "StoreDocuments"); fd != nil {
+			var inits []string
+			var passed []string
+			ast.Inspect(fd.Body, func(n ast.Node) bool {
+				switch x := n.(type) {
+				case *ast.AssignStmt:
+					for i, l := range x.Lhs {
+						if i < len(x.Rhs) {
+							if c, ok := x.Rhs[i].(*ast.CallExpr); ok && strings.Contains(f.Render(c.Fun), "riteStatus") {
+								inits = append(inits, f.Render(l)+" "+x.Tok.String()+" "+f.Render(c.Fun))
+							}
+						}
+					}
+				case *ast.CallExpr:
+					if strings.HasSuffix(f.Render(x.Fun), ".storeDocs") && len(x.Args) == 3 {
+						passed = append(passed, f.Render(x.Args[2]))
+					}
+				}
+				return true
+			})
+			e.Strs("writeStatusInits", inits, "StoreDocuments: assignments whose right side is a *WriteStatus* call")
+			e.Strs("writeStatusPassed", passed, "StoreDocuments: third argument of every storeDocs call")
+		}
+		// sendBulkToHost: the returns, each with the innermost enclosing if condition ("" = top level)
+		if fd := f.Func("", "sendBulkToHost"); fd == nil {
+			e.Missing("sendBulkToHostReturns", "sendBulkToHost not found")
+		} else {
+			var rets []string
+			var walk func(n ast.Node, cond string)
+			walk = func(n ast.Node, cond string) {
+				ast.Inspect(n, func(m ast.Node) bool {
+					switch x := m.(type) {
+					case *ast.IfStmt:
+						if m == n {
+							return true
+						}
+						walk(x.Body, f.Render(x.Cond))
+						if x.Else != nil {
+							walk(x.Else, "!("+f.Render(x.Cond)+")")
+						}
+						return false
+					case *ast.ReturnStmt:
+						r := "nil"
+						if len(x.Results) == 1 {
+							r = f.Render(x.Results[0])
+							if i := strings.Index(r, "("); i > 0 {
+								r = r[:i]
+							}
+						}
+						rets = append(rets, cond+" => "+r)
+					}
+					return true
+				})
+			}
+			walk(fd.Body, "")
+			e.Strs("sendBulkToHostReturns", rets, "sendBulkToHost: every return with its innermost enclosing if condition")
+		}
+		if ws, err := r.Load("proxy/bulk/write_status.go"); err != nil {
+			e.Missing("write_status.go", err)
+		} else {
+			for _, fn := range []string{"newBulkWriteStatus", "newStoresWriteStatus"} {
+				if fd := ws.Func("", fn); fd == nil {
+					e.Missing(fn+"Body", fn+" not found")
+				} else {
+					var ss []string
+					for _, st := range fd.Body.List {
+						ss = append(ss, strings.Join(strings.Fields(ws.Render(st)), " "))
+					}
+					e.Strs(fn+"Body", ss, fn+": statements")
+				}
+			}
+		}
 		// storeDocs: order of the tier sends and of the coldWritten assignment
 		if fd := f.Func("SeqDBClient", "storeDocs"); fd == nil {
 			e.Missing("storeDocsOrder", "storeDocs not found")
@@ -133,5 +206,5 @@ func main() {
 			})
 			e.Strs("sendBulkBreakConds", br, "sendBulkToStores: conditions that end the shard loop")
 		}
-	}, "consts/consts.go", "proxy/bulk/seqdb_client.go")
+	}, "consts/consts.go", "proxy/bulk/seqdb_client.go", "proxy/bulk/write_status.go")
 }
